@@ -33,7 +33,7 @@ var specs = map[string]spec{
 	"C06": {
 		jobs: []job{
 			{name: "programs", test: "TestC06Programs", rapid: true, checks: [2]int{80, 600}, shards: [2]int{8, 12}, secs: [2]int{900, 7200}},
-			{name: "rigrandom", test: "TestC06RigRandom", rapid: true, checks: [2]int{2500, 100000}, shards: [2]int{4, 8}, secs: [2]int{900, 7200}},
+			{name: "rigrandom", test: "TestC06RigRandom", rapid: true, checks: [2]int{2500, 40000}, shards: [2]int{4, 8}, secs: [2]int{900, 7200}},
 			{name: "rigexhaustive", test: "TestC06RigExhaustive", shards: [2]int{16, 16}, count: [2]int{3, 4}, secs: [2]int{900, 14400}},
 		},
 		rule:        "programs = MEM/WALK/SHADOW/SHADOWSLOW/CACHE/PAIR/OWNER programs (results may be wrong for known reasons: no result-level exclusion) on MVP-7.0/7.1/8 x 1..4 cores with the invariant monitor called on every loop iteration of Run through the tick hook; the monitor reads a snapshot of every L1, the directory, the per-line lock counters, the outstanding snoop commands and (MVP-8) the L3, and checks I1 at most one Modified owner and then no Shared copy, I2 a Shared L1 line equals the next level byte for byte (covering L3 line if resident, else memory), I3 resident in L1 <=> state != Invalid when no transfer is in progress on the line (lock counters zero, no outstanding command, L3 line not locked), I4 no duplicate, aligned, full-size lines, I5 lock counters >= 0 (a recovered 'is negative' panic counts). rigrandom / rigexhaustive = the same monitor on the pipeline-less controller rig stepped exactly as CPU.Run does (snoop, then each core's read/write coroutine with the same request until done): random schedules of 1-8 requests on 2-4 cores and 3 lines with up to 2 flushes, one schedule in six a capacity schedule (core 0 writes 17-19 distinct lines so that its 16-line L1 evicts Modified lines while other cores touch the first lines around those write-backs); exhaustive = every schedule of up to k requests (3 quick, 4 thorough) of (core, read|write, line 0..1, issue delay 0..2) from 2 and 3 cores, each also with one flush of one core or of all cores at each of 15 critical cycles (around the line push at cycle 309..316), on the three variants; quiescence is required. Non-trivial = a line that was Modified on one core is later held (Modified or Shared) by another core; distinct by (program, state) or by schedule.",
